@@ -6,22 +6,24 @@ import SaModel.Lemmas.C08ZooE
 import SaModel.Lemmas.C08Explore
 import SaModel.Lemmas.C08Loop
 import SaModel.Lemmas.C08NotWalkable
-import SaModel.Lemmas.C08Agree
+import SaModel.Lemmas.C08SAgree
 /-
 C08 — tracing yields the documented mapping; from_type and from_samples agree.
 Model: SaModel/Trace/{Tracer,FromSamples,FromType}.lean.  Documented mapping: SaModel/Trace/Mapping.lean (`Spec.mapping`,
-`Spec.fromTypeSpec`).
+`Spec.fromTypeSpec`).  `Agree a b`: both succeed with the same value, or both fail with a Rust error.
 
-Proved for ALL inputs: the overwrite rule on the tracer (`C08_overwrite_replaces`, `C08_overwrite_name_mismatch`,
-`C08_overwrite_unknown_path`) and on the documented mapping (`C08_mapping_overwrite`); `C08_mapping_name` (the traced field
-always carries the traced name); `C08_options_local_*`: the three sample-only options do not occur in the mapping of a
-type, `Option` yields nullable, each flag of the leaf mapping changes precisely its aspect (`…_leaf` lemmas);
-`C08_from_type_leaf_partial`: one exploration pass over a leaf type at any position is the documented leaf mapping.
-Proved by kernel evaluation on the zoo (16 type descriptions — the Lean twins of the derived types the harness compiles
-— × 10 option settings incl. tight budgets and overwrites): `C08_from_type_on_zoo`, `C08_agree_on_zoo`.
-NOT proved in general: `fromType o ty = Spec.fromTypeSpec o ty` for every `ty` (the container cases of the induction and
-the multi-pass invariant "after k passes exactly the first k variant-passes are complete" are missing), hence the
-`_partial` / `_on_zoo` names.  The general statement is checked on the real crate by the `tracety` suite.
+Proved for ALL inputs:
+* the overwrite rule on the tracer (`C08_overwrite_replaces`, `C08_overwrite_name_mismatch`, `C08_overwrite_unknown_path`)
+  and on the documented mapping (`C08_mapping_overwrite`); `C08_mapping_name`; `C08_options_local_*`;
+* `explore_complete_spec`: one pass over any enum-free type from a fresh node is complete and its field is the
+  documented mapping (error iff the type cannot be walked);
+* `C08_pass_invariant`, `C08_complete_iff`, `C08_loop`: the multi-pass loop for enums (after `k` passes the tracer is
+  `after k ty`; complete iff `passes ty ≤ k`; the loop succeeds iff `passes ty ≤ budget`);
+* `C08_from_type`: `Agree (fromType c o ty) (Spec.fromTypeSpec o ty)` for every type and every option record;
+  `C08_from_type_budget`, `C08_from_type_not_walkable`, `C08_from_type_recursive` (depth limit);
+* `C08_agree`: `fromSamples c o (covering ty) = fromType c o ty` for every walkable type with unique field names whose
+  passes fit the budget (enums included).
+Kept as a kernel-evaluated sanity table: `C08_from_type_and_agree_on_zoo` (16 type descriptions × 10 option settings).
 -/
 namespace SaModel.Props.C08
 open SaModel SaModel.Trace SaModel.Trace.Spec SaModel.Lemmas.C08
@@ -402,26 +404,32 @@ example :
 
 /-! ### `from_samples` on covering samples = `from_type` -/
 
-/-- `C08_agree_partial`: for every ENUM-FREE type description with unique field names that can be walked, and all
-options with a budget of at least the one pass such a type needs: `from_samples` on the covering samples of the type
-(`covering`, SaModel/Trace/FromType.lean: `Some`, one element per collection, one entry per map) gives exactly what
-`from_type` gives — the same fields or the same error (null-only field, overwrite errors, root not a struct).
-Needed hypotheses: unique names (`from_samples` finds a field by name, a derive by position); walkable (under
-`map_as_struct` `from_type` refuses maps while `from_samples` traces them as structs — there the two tracers differ, as
-documented).
-Missing for the general `C08_agree`: types with enums (several covering samples: the invariant of `absorbAll` over the
-`width ty` samples, variant by variant); checked on the zoo below and on the real crate by the `tracety` suite. -/
-theorem C08_agree_partial (c : Code) (o : Options) (ty : Ty) (hf : enumFree ty = true) (hu : uniqueNames ty = true)
-    (hw : walkable o "$" ty = true) (hb : 1 ≤ o.from_type_budget) :
+/-- `C08_agree`: for EVERY type description (enums with all four variant kinds and nested enums included) that can be
+walked, with unique field names, and all options whose budget covers the passes the type needs: `from_samples` on the
+covering samples of the type (`covering`, SaModel/Trace/FromType.lean: every variant with every covering sample of its
+payload, `Some`, one element per collection, one entry per map) gives exactly what `from_type` gives — the same fields
+or the same error (null-only field, overwrite errors, root not a struct, more than 128 variants).
+The invariant (`absorb_step`, SaModel/Lemmas/C08SStep.lean): absorbing covering sample `m` into `safter m ty` gives
+`safter (m+1) ty`, where after `m = q·L + r` samples an enum node with `L` variants has given `q + 1` payload samples to
+its variants `< r` and `q` to the others; from `width ty` samples on the tracer is `done ty` up to the sample counters
+of struct nodes, which `to_field` does not read.
+The hypotheses are needed: unique names (`from_samples` finds a field by name, a derive by position); walkable (under
+`map_as_struct` `from_type` refuses maps while `from_samples` traces them as structs — the two tracers differ there, as
+documented); the budget (`from_samples` has none); `smallEnums`: at most 2^20 variants per enum, the allocation bound of
+the executable model of `ensure_variant` (finding #29) — Arrow allows 128. -/
+theorem C08_agree (c : Code) (o : Options) (ty : Ty) (hw : walkable o "$" ty = true) (hu : uniqueNames ty = true)
+    (hs : smallEnums ty = true) (hb : passes ty ≤ o.from_type_budget) :
     fromSamples c o (covering ty) = fromType c o ty :=
-  agree_enumFree c o ty hf hu hw hb
+  agree_all c o ty hw hu hs hb
 
-/-- non-vacuity: a struct with every enum-free container kind; both tracers succeed on it -/
+/-- non-vacuity: a struct with every container kind and nested enums with the four variant kinds (10 passes, 18
+covering samples); both tracers succeed on it -/
 example :
-    let o : Options := { map_as_struct := false }
+    let o : Options := { map_as_struct := false, allow_null_fields := true }
     let ty : Ty := .struct "S" (.cons "a" (.option (.vec .string)) (.cons "t" (.tuple (.cons (.int .u8) (.cons .bool .nil)))
-      (.cons "m" (.map .string (.struct "I" (.cons "x" .f32 .nil))) (.cons "n" (.newtypeStruct "N" (.int .i64)) .nil))))
-    enumFree ty = true ∧ uniqueNames ty = true ∧ walkable o "$" ty = true ∧ (fromType .fixed o ty).isOk = true := by
+      (.cons "m" (.map .string (.struct "I" (.cons "x" .f32 .nil))) (.cons "deep" tDeep .nil))))
+    walkable o "$" ty = true ∧ uniqueNames ty = true ∧ smallEnums ty = true ∧ passes ty = 10 ∧ width ty = 18 ∧
+      (fromType .fixed o ty).isOk = true := by
   decide +kernel
 
 /-! ### the zoo: `from_type` = documented mapping = `from_samples` on covering samples (kernel evaluation) -/
